@@ -421,6 +421,14 @@ func runC06(c *core.Check) {
 		c.Decide(ok, "valid-go", "exprstmt-errwrap", cs.Pos(), "the values of `expr?` used as a statement are assigned to blanks", "cl.compileStmt no longer discards the values an `expr?` statement leaves on the operand stack: the generated code contains a lone `_autoGo_1` expression statement, which Go rejects, although the compiler reported success")
 	}
 
+	// `"${1/3.0}"`: an untyped float constant has no `string` member of its own; gogen treats it as an int and emits
+	// strconv.Itoa(1 / 3.0), which Go rejects — compileStringLitEx gives it the type float64 first
+	if sl := prog.FuncDecl("./cl", "compileStringLitEx"); sl != nil {
+		txt := nows(nodeTextAll(sl.Body))
+		ok := strings.Contains(txt, "constant.Float") && strings.Contains(txt, "types.Typ[types.Float64]") && strings.Contains(txt, "IsUntyped")
+		c.Decide(ok, "valid-go", "interp-untyped-float", sl.Pos(), "an untyped float constant part is converted to float64 before its string member is taken", "cl.compileStringLitEx takes the `string` member of an untyped float constant as it is: gogen resolves it like an int's and the generated code contains strconv.Itoa(1 / 3.0), which Go rejects")
+	}
+
 	// ---------- (3) the sink and the result
 	pkgCtx := prog.NamedType("./cl", "pkgCtx")
 	if pkgCtx == nil {
